@@ -253,6 +253,16 @@ def gen_cases(ctx, root):
         [("list", b"/"), ("mkdir", b"/d1"), ("mkdir", b"/d1/d2"), ("list", b"/d1"), ("upload", b"/d1/f"), ("uploaddone", b"")],
         [("upload", b"/up.bin"), ("uploadfail", b""), ("uploadfail", b"now")],
         [("mkdir", b"/" + b"m" * (PM - 2 - 40)), ("mkdir", b"/" + b"m" * (PM - 2)), ("list", b"/")],
+        # the close hook (rfbCloseClient -> CloseUndoneFileUpload) and names that do not arrive completely
+        [("upload", b"/up.bin"), ("teardown", b"")],
+        [("upload", b"/up.bin"), ("uploadtrunc", sb.encode() + b"/file.txt\x00")],
+        [("upload", b"/up.bin"), ("uploadtrunc", b"/x")],
+        [("uploadtrunc", sb.encode() + b"/file.txt\x00")],
+        [("upload", b"/up.bin"), ("uploaddone", b""), ("uploadtrunc", sb.encode() + b"/big.txt\x00")],
+        [("upload", b"/up.bin"), ("upload", b"/up2.bin"), ("teardown", b"")],
+        # a listing whose spelled-out path plus an entry name exceeds fullpath[PATH_MAX]
+        [("mkdir", b"/" + b"n" * 250), ("list", b"/" + b"./" * 1920)],
+        [("mkdir", b"/" + b"n" * 250), ("list", b"/" + b"./" * 1000), ("list", b"/")],
     ]
     for sq in seqs:
         for (en, vo) in [(1, 0), (1, 0), (0, 0), (1, 1)]:
@@ -389,25 +399,25 @@ def tight_msgs(block):
 
 
 def tight_model_msgs(block):
-    """model block -> (tree variant, fixed variant) per message"""
-    tree, alt = [], []
-    ct = ca = None
-    in_alt = False
+    """model block -> (tree variant, [other variants]) per message"""
+    tree, alts = [], []
+    ct = None
+    cur = {}
     for l in block:
         if l.startswith("m "):
-            ct, ca, in_alt = [], None, False
+            ct = []
+            cur = {}
             tree.append(ct)
-            alt.append(ct)
-        elif l == "alt1 -":
-            ca = []
-            alt[-1] = ca
-        elif l.startswith("alt1 fs ") and ca is not None:
+            alts.append(cur)
+        elif re.match(r"alt\d -$", l):
+            cur[l[3]] = []
+        elif re.match(r"alt\d fs ", l):
             q = l.split()
-            ca.append((q[2], q[3]))
+            cur.setdefault(l[3], []).append((q[2], q[3]))
         elif l.startswith("fs ") and ct is not None:
             q = l.split()
             ct.append((q[1], q[2]))
-    return tree, alt
+    return tree, alts
 
 
 def split_alt(block):
@@ -536,6 +546,10 @@ def oracle_case(env, case, iblocks):
             if got_en and not en_s:
                 fails.append((j, "-disablefiletransfer was given, yet the TightVNC file transfer is enabled after the command line %r (home directory: %s)" %
                               ([a[:40] for a in op[2]], op[1]), dict(feat, kind="tight-reenabled")))
+            elif got_en and root_s is None and got_root == b"":
+                fails.append((j, "neither the passwd home directory nor a -ftproot option names a directory, yet the TightVNC file transfer stays "
+                                 "enabled with an empty root: requests are served relative to the whole file system (command line %r, home: %s)" %
+                              ([a[:40] for a in op[2]], op[1]), dict(feat, kind="tight-unconfined")))
             elif root_s is not None and got_root != root_s:
                 fails.append((j, "transfer root is %r, the last valid -ftproot / home directory given is %r" % (got_root[-60:], root_s[-60:]), dict(feat, kind="tight-root")))
             continue
@@ -549,8 +563,10 @@ def oracle_case(env, case, iblocks):
             pathops = [l.split() for l in body if l.startswith("fs ") and l.split()[1] in PATH_OPS + ("creat", "utime") and len(l.split()) > 2
                        and l.split()[2] != "-"]          # an empty name names no file (the call fails with ENOENT)
             feat.update(enabled=en, viewonly=vo)
+            kinds = [k for k, a in sq]
             if crash:
-                fails.append((j, "TightVNC extension request crashes the server: %s" % crash[0], dict(feat, kind="crash")))
+                fails.append((j, "TightVNC extension request crashes the server: %s (messages %r)" % (crash[0], [(k, len(a)) for k, a in sq]),
+                              dict(feat, kind="crash", asan=(crash[0].split() + ["?"])[1], listing=int("list" in kinds))))
                 break
             if not (en and not vo):
                 if pathops or any(l.startswith("tx ") for l in body):
@@ -563,7 +579,8 @@ def oracle_case(env, case, iblocks):
                     base = os.path.realpath(ftproot)
                     if not (real == base or real.startswith(base.rstrip(b"/") + b"/")):
                         fails.append((j, "TightVNC extension: '%s' on %r, outside the transfer root %r (messages %r)" %
-                                      (po[1], p, ftproot, [(k, a[:60]) for k, a in sq]), dict(feat, kind="tight-escape", fsop=po[1])))
+                                      (po[1], p, ftproot, [(k, a[:60]) for k, a in sq]),
+                                      dict(feat, kind="tight-escape", fsop=po[1], trunc=int("uploadtrunc" in kinds))))
                         break
             continue
         if crash:
@@ -678,9 +695,9 @@ def compare_case(env, case, il, ml):
                 if a is None:
                     continue
                 t = mt[k] if k < len(mt) else []
-                f = ma[k] if k < len(ma) else []
+                fs_ = list((ma[k] if k < len(ma) else {}).values())
                 okt = a == t[:len(a)] and (bool(a) == bool(t) or not a)
-                okf = a == f[:len(a)]
+                okf = any(a == f[:len(a)] and bool(a) == bool(f) for f in fs_)
                 if not a and t and not crash:
                     # the model lists the calls a handler can make; none at all is accepted only for an over-long name
                     okt = any(len(x[1]) > 7000 for x in t)
